@@ -57,7 +57,12 @@ MANIFEST = {
             'before its repair); drain on a process session — the override SSHProcess._should_block_drain with a redirect '
             'source registered, waiters woken only by _unblock_drain calls — keeps waiting exactly while something blocks '
             'and never across the loss of the channel (drain_contract, drain_never_outlives_channel, witness '
-            'drain_hangs_after_channel_loss_prefix = A-C19-1 before its repair); redirect sources of a process: for every '
+            'drain_hangs_after_channel_loss_prefix = A-C19-1 before its repair); the peer\'s CLOSE arriving while '
+            'connection_lost is held back by unread data ends the wait of a paused writer with BrokenPipeError, while a '
+            'wait that ends because the data WAS sent returns normally also after write_eof / a redirect\'s EOF '
+            '(drain_fails_when_peer_closes_on_paused_writer, drain_returns_when_data_was_sent, witnesses '
+            'drain_after_peer_close_witnesses: hang before C09\'s repair 352f310, normal return with that repair alone); '
+            'redirect sources of a process: for every '
             'history of two well-behaved sources nothing is refused, the channel carries what they delivered in order and '
             'EOF goes out when and only when the last one has ended (sources_copy_all_then_eof, witness of A-C19-2 before '
             'its repair); the model\'s window/pause/loop/give-up/drain/EOF tests proved equal to the '
@@ -90,6 +95,10 @@ TRUSTED = [
     '(validated by the correspondence on every run)',
     'window account of the raw peers: window advertised at channel open + the CHANNEL_WINDOW_ADJUST values seen '
     'arriving at the peer (class-level wrapper of SSHPacketLogger.log_received_packet, observation only) - bytes sent',
+    'drain model, event peerClose: the stand-in channel of the directly driven sessions does what '
+    'SSHChannel._process_close does for the writer (discard, record it, resume a paused session); that the real channel '
+    'does so is tied by the generated facts processCloseResumesWriting / closeSendRecordsDiscard and exercised by the '
+    'oracle scenario drain-peer-close on real channels',
     'drain model: a waiter completed by _unblock_drain runs before the next event (the harness settles the loop after '
     'every event); the directly driven process session (SSHServerProcess over a stand-in channel, events = calls of '
     'pause_writing / resume_writing / connection_lost / set_reader / feed_eof) stands for the real one, which the '
@@ -176,7 +185,7 @@ def _determinate(toks: Sequence[Tuple]) -> bool:
     return True
 
 
-def _drain_cases(evs: Sequence[str] = ('p', 'r', 'l0', 'l1')) -> List[Tuple[List[str], List[str]]]:
+def _drain_cases(evs: Sequence[str] = ('p', 'r', 'l0', 'l1', 'c0', 'c1')) -> List[Tuple[List[str], List[str]]]:
     out = []
     for npre in range(0, 3):
         for pre in itertools.product(evs, repeat=npre):
@@ -198,11 +207,13 @@ async def _run_drain(cases: List[Tuple[List[str], List[str]]]) -> List[str]:
 
         def apply(ev: str) -> None:
             if ev == 'p':
-                sess.pause_writing()
+                chan.pause_session()
             elif ev == 'r':
-                sess.resume_writing()
+                chan.resume_session()
             elif ev == 'l0':
                 sess.connection_lost(None)
+            elif ev in ('c0', 'c1'):
+                chan.peer_close(ev == 'c1')
             else:
                 sess.connection_lost(asyncssh.ConnectionLost('lost'))
         for ev in pre:
@@ -456,9 +467,10 @@ def correspondence(ctx: Ctx) -> CorrResult:
         hist.hit('drain:' + r)
     res.nontrivial += len(dcases)
 
-    # (5b) drain on a PROCESS session (the override SSHProcess._should_block_drain): the same events plus a redirect
+    # (5b) drain on a PROCESS session (the override SSHProcess._should_block_drain): the same events (p r l0 l1, and
+    # c0 / c1 = the peer's CLOSE arrives while connection_lost is held back, send buffer empty / not) plus a redirect
     # source being registered (s) and ending (f), every sequence of length <= 2+2
-    pdcases = _drain_cases(['p', 'r', 'l0', 'l1', 's', 'f'])
+    pdcases = _drain_cases(['p', 'r', 'l0', 'l1', 's', 'f', 'c0', 'c1'])
     out_pd = pair.run(RD.run_proc_drain(pdcases), timeout=600)
     for (pre, post), r in zip(pdcases, out_pd):
         lines.append('D ' + ' '.join(pre) + ' | ' + ' '.join(post))
@@ -1610,6 +1622,7 @@ REDIR_SCENARIOS = {
     'drain-gone': RD.drain_gone, 'two-sources': RD.two_sources, 'other-stream-direct': RD.other_stream_direct,
     'other-stream-wire': RD.other_stream_wire, 'late-redirect': RD.late_redirect, 'backpressure': RD.backpressure,
     'closed-channel': RD.closed_channel, 'cancelled-read': RD.cancelled_read, 'undecodable': RD.undecodable,
+    'drain-peer-close': RD.drain_peer_close, 'drain-idiom': RD.drain_idiom,
 }
 
 
@@ -1659,6 +1672,18 @@ def redir_cases(ctx: Ctx) -> List[Tuple[str, List[Any]]]:
     for side in ('client', 'server'):
         for how in ('exit', 'cut', 'disconnect'):
             cases.append(('drain-gone', [side, how]))
+    # drain() across the peer's CLOSE with data unsent (must end, must fail), and after data that DID go out (must
+    # return normally although the channel is closed for further writes by write_eof / the redirect's EOF)
+    cases.append(('drain-peer-close', [300000, 1024, 1536]))
+    cases.append(('drain-peer-close', [100000, 64, 96]))
+    for kind in ('eof', 'redirect'):
+        cases.append(('drain-idiom', [kind, 200000, 65536]))
+    for _ in range(ctx.n(2, 20)):
+        w = rng.choice([64, 1024, 4096])
+        # (one window is delivered and pauses the reader, up to one more waits in the channel: CLOSE can follow)
+        cases.append(('drain-peer-close', [rng.choice([90000, 200000, 500000]), w, w + rng.randint(1, w)]))
+        cases.append(('drain-idiom', [rng.choice(['eof', 'redirect']), rng.choice([70000, 150000, 400000]),
+                                      rng.choice([4096, 65536])]))
     # A-C19-2: the corpus (examples/redirect_server.py: the program writes to both, one closes early) + interleavings
     for kind in ('pipe', 'stream'):
         cases.append(('two-sources', [kind, [('d', b'hello\n'), ('z',), ('D', b'oops\n'), ('Z',)]]))
